@@ -137,6 +137,21 @@ CLAIMS["C20"] = dict(
     design_ref="DESIGN.md section 4, C20",
     technique="static analysis: effect (who-writes-self.*) analysis with alias tracking over the write() call cone; abstract interpretation of array lengths with symbolic sizes")
 
+CLAIMS["C13"] = dict(
+    category="other",
+    text=("Decides: (D1) the three merge helpers never overwrite an entry filled from the first mesh (membership test + read of the "
+          "previous entry), the second mesh's node-indexed data are shifted by the first mesh's node count and element-indexed "
+          "data by its element count, side numbers are not shifted, and the merged Mesh receives each merged collection in its own "
+          "field; (D2) each index-valued Exodus record is shifted by exactly -1 and coordinate records by 0, block element ranges "
+          "are accumulated by a loop-carried += of the block's own count, the TRI6 permutation literal is a permutation whose "
+          "vertex and mid-edge images equal the parent element's vertex/face tables at degree 2 (constant-folded from "
+          "make_parent_element_2d), vertices are taken from the first three Exodus columns before permuting; (D3) in order "
+          "elevation the right neighbour gets the flipped edge-node list under elemRight >= 0, node numbers come from consecutive "
+          "disjoint ranges stacked like the coordinates, and the interior-node affine map agrees with the convention of "
+          "FunctionSpace.map_element_shape_grads. Areas, adjacency correctness and node placement as numbers are NOT decided."),
+    design_ref="DESIGN.md section 4, C13",
+    technique="static analysis: lossy-merge detection, index-kind typing, shift counting via algebraic normal forms, constant folding of table formulas, sibling comparison")
+
 NA = {}
 
 
